@@ -12,6 +12,7 @@ import (
 	"math/rand"
 	"os"
 	"strconv"
+	"strings"
 	"testing"
 
 	sdk "github.com/cosmos/cosmos-sdk/types"
@@ -99,4 +100,31 @@ func TestVerifPreludeConformance(t *testing.T) {
 		fmt.Printf("CONF|github.com/cosmos/cosmos-sdk/types.NewDec|%d|-|%s\n", i64, decRaw(sdk.NewDec(i64)))
 		fmt.Printf("CONF|github.com/cosmos/cosmos-sdk/types.NewDecFromInt|%s|-|%s\n", a, decRaw(sdk.NewDecFromInt(ia)))
 	}
+	// Axioms of theory/bank.smt2 about address strings, sampled on the real decoder:
+	//   AXIOM|<name>|<assumed yes/no>|<cases>|<counterexamples>
+	roundtrip, upperAccepted, upperSameAccount, upperCanonical := 0, 0, 0, 0
+	for i := 0; i < n; i++ {
+		raw := make([]byte, 20)
+		r.Read(raw)
+		acc := sdk.AccAddress(raw)
+		s := acc.String()
+		back, err := sdk.AccAddressFromBech32(s)
+		if err != nil || !back.Equals(acc) {
+			roundtrip++
+		}
+		up := strings.ToUpper(s)
+		other, err := sdk.AccAddressFromBech32(up)
+		if err == nil {
+			upperAccepted++
+			if other.Equals(acc) {
+				upperSameAccount++
+			}
+			if other.String() == up {
+				upperCanonical++
+			}
+		}
+	}
+	fmt.Printf("AXIOM|addr_of(bech32(a)) == a and bech32_ok(bech32(a))|yes|%d|%d\n", n, roundtrip)
+	fmt.Printf("AXIOM|bech32_ok(s) ==> bech32(addr_of(s)) == s (a valid string is its own canonical spelling)|no|%d|%d\n", n, upperAccepted-upperCanonical)
+	fmt.Printf("AXIOM|the upper-case spelling of a valid address names the same account|info|%d|%d\n", upperAccepted, upperAccepted-upperSameAccount)
 }
